@@ -1,0 +1,26 @@
+//go:build verif
+
+package routing
+
+import (
+	"lunar/engine/actions"
+	lunar_messages "lunar/engine/messages"
+
+	"github.com/negasus/haproxy-spoe-go/action"
+)
+
+// VerifSPOEReqActions exposes the request fold site (getSPOEReqActions) to the C07 harness.
+func VerifSPOEReqActions(
+	args lunar_messages.OnRequest,
+	lunarActions []actions.ReqLunarAction,
+) action.Actions {
+	return getSPOEReqActions(args, lunarActions)
+}
+
+// VerifSPOERespActions exposes the response fold site (getSPOERespActions) to the C07 harness.
+func VerifSPOERespActions(
+	args lunar_messages.OnResponse,
+	lunarActions []actions.RespLunarAction,
+) action.Actions {
+	return getSPOERespActions(args, lunarActions)
+}
